@@ -19,16 +19,16 @@ KANI_ASSUME = [
 ]
 
 PROPS = {
-    'C13': dict(level='proof', vgroups=[], kunits=['U-cmp-int', 'U-cmp-float', 'U-cmp-char-null-bool', 'U-cmp-types', 'U-peq', 'U-within', 'U-unary-op-k'],
+    'C13': dict(level='proof', level_text='every comparison kernel obligation is a loop-free Kani proof over the full scalar domains (i64, finite f64, char, variant pairs, inclusive bits): complete, not bounded; string/list/map payloads are bounded units counted separately', level_note='regex engine trusted (stubbed); format! stubbed; strings/lists/maps only in bounded units', vgroups=[], kunits=['U-cmp-int', 'U-cmp-float', 'U-cmp-char-null-bool', 'U-cmp-types', 'U-peq', 'U-within', 'U-unary-op-k'],
                 assumptions=KANI_ASSUME,
                 not_under_contract=['regex engine (fancy_regex) - trusted', 'string order beyond the bounded unit', 'list/map equality beyond the bounded unit'],
                 explanation=''),
-    'C02': dict(level='proof', vgroups=['eval', 'eval_disp'], kunits=[], assumptions=EVAL_ASSUME,
+    'C02': dict(level='proof', level_text='Verus proves, for all inputs and all lengths, that every record closed by rule/when/file/named-clause/clause evaluation carries the status returned to the caller and that this status is the documented function of the children statuses (record-tree ghost model)', level_note='assumed: EvalContext trait contract, CNF combinator contract (bounded Kani unit), query engine; termination not proved', vgroups=['eval', 'eval_disp'], kunits=[], assumptions=EVAL_ASSUME,
                 not_under_contract=['query_retrieval_with_converter (Filter records)', 'RootScope::rule_status', 'RecordTracker (bounded only)'],
                 explanation=''),
-    'C03': dict(level='proof', vgroups=['eval'], kunits=[], assumptions=EVAL_ASSUME,
+    'C03': dict(level='proof', level_text='Verus proves that the polarity reaching the per-value layer is operator-not XOR prefix-not on both the unary and the binary path of the real eval_guard_access_clause, and the named-rule negation table', level_note='assumed: unary_operation/binary_operation depend on the polarity bit as contracted (bounded Kani units)', vgroups=['eval'], kunits=[], assumptions=EVAL_ASSUME,
                 not_under_contract=['operators.rs list-valued In/Eq flip'], explanation=''),
-    'C06': dict(level='proof', vgroups=['exit'], kunits=[], assumptions=COMMON_ASSUME,
+    'C06': dict(level='proof', level_text='the exit-code folding functions are proved equal to the severity order stated by the property, for all i32 arguments', level_note='the inline folds in Validate::execute / evaluate_rule / main are not under contract', vgroups=['exit'], kunits=[], assumptions=COMMON_ASSUME,
                 not_under_contract=['Validate::execute exit-code folding (inline, I/O)', 'evaluate_rule', 'main'], explanation=''),
 }
 
